@@ -104,7 +104,7 @@ struct Input {
 
 pub fn run(p: &Params) -> Report {
     let mut rep = Report::new("C04");
-    rep.rule = "cases = (state, spending transaction) in which everything except authorisation is valid by construction (coins exist, balanced, fee paid, unlocked, well-formed): 1-8 inputs drawn from covenant families ed25519 legacy/new (right/wrong key, right/wrong slot, signature over another transaction, fields tampered after signing, truncated), hash-lock on data, time-lock and deadline on the previous header's height, spender-index-, value-, additional-data-, parent-height-, parent-index-, output-count-bound, self-hash and random programs; inputs may share one covenant hash while differing in environment, down to twin coins that differ only in coin id and input position; covenants may be missing, corrupted after signing, or the coin may be locked to the hash of bytes that are not a program at all (a literal running past the end of a standard covenant or standing alone, an unassigned opcode, a missing operand). Oracle: the reference interpreter on the reference environment heap for every input: accepted => every input authorised; for the two standard signature covenants also all authorised => accepted. Non-trivial = >= 2 inputs, or an environment-dependent covenant, or a tampered transaction; distinct by transaction hash".into();
+    rep.rule = "cases = (state, spending transaction) in which everything except authorisation is valid by construction (coins exist, balanced, fee paid, unlocked, well-formed): 1-8 inputs drawn from covenant families ed25519 legacy/new (right/wrong key, right/wrong slot, signature over another transaction, fields tampered after signing, truncated), hash-lock on data, time-lock and deadline on the previous header's height, spender-index-, value-, additional-data-, parent-height-, parent-index-, output-count-bound, self-hash and random programs; inputs may share one covenant hash while differing in environment, down to twin coins that differ only in coin id and input position; covenants may be missing, corrupted after signing, or the coin may be locked to the hash of bytes that are not a program at all (a literal running past the end of a standard covenant or standing alone, an unassigned opcode, a missing operand). The spending transaction is a plain payment, a faucet-kind transaction with inputs (off mainnet) or a pool-kind transaction whose data names no pool; input values include 0. Oracle: the reference interpreter on the reference environment heap for every input: accepted => every input authorised; for the two standard signature covenants also all authorised => accepted. Non-trivial = >= 2 inputs, or an environment-dependent covenant, or a tampered transaction; distinct by transaction hash".into();
     let total = p.n(100_000, 2_500_000);
     let mine = p.share(total);
     let mut rng = Rng::new(p.shard_seed() ^ 0xC04);
@@ -200,10 +200,12 @@ pub fn run(p: &Params) -> Report {
             };
             let cov = cov_of(&fam, &keys);
             let denom = if i == 0 || r.chance(2, 3) { Denom::Mel } else { Denom::Sym };
-            let value = match r.below(3) {
+            let value = match r.below(if i == 0 { 3 } else { 4 }) {
                 0 => 500 + r.below(1000) as u128,
                 1 => 1500 + r.below(1000) as u128,
-                _ => 1 << 40,
+                2 => 1 << 40,
+                // an empty coin still needs its covenant's consent
+                _ => 0,
             } + if i == 0 { 1 << 50 } else { 0 };
             let ad = match r.below(4) {
                 0 => vec![],
@@ -260,8 +262,16 @@ pub fn run(p: &Params) -> Report {
             outs.push(CoinData { covhash: dest, value: CoinValue(0), denom: Denom::Mel, additional_data: Bytes::new() });
         }
         let mel_idx = outs.iter().position(|o| o.denom == Denom::Mel).unwrap();
+        // authorisation does not depend on what kind of transaction spends the coin: besides plain payments, kinds
+        // whose other rules these transactions satisfy trivially (pool kinds with data that names no pool; the
+        // faucet kind, which may carry inputs off mainnet)
+        let kind = match r.below(10) {
+            0 | 1 if net != NetID::Mainnet => TxKind::Faucet,
+            2 => *r.pick(&[TxKind::Swap, TxKind::LiqDeposit, TxKind::LiqWithdraw]),
+            _ => TxKind::Normal,
+        };
         let mut tx = Transaction {
-            kind: TxKind::Normal,
+            kind,
             inputs: inputs.iter().map(|i| i.id).collect(),
             outputs: outs,
             fee: CoinValue(0),
@@ -394,7 +404,7 @@ pub fn run(p: &Params) -> Report {
             let mut seen = std::collections::HashSet::new();
             inputs.iter().any(|i| !seen.insert(i.cdh.coin_data.covhash))
         };
-        let wit = json!({"case_seed": case_seed, "net": format!("{:?}", net), "height": height + 1, "tx_hex": tx_hex(&tx), "tx": tx_brief(&tx), "tamper": tamper,
+        let wit = json!({"case_seed": case_seed, "kind": format!("{}", kind), "net": format!("{:?}", net), "height": height + 1, "tx_hex": tx_hex(&tx), "tx": tx_brief(&tx), "tamper": tamper,
             "inputs": tx.inputs.iter().enumerate().map(|(idx, id)| { let i = by_id[id]; json!({"index": idx, "family": fam_name(&i.fam), "covenant": refvm::decode(&cov_of(&i.fam, &keys)).map(|o| ops_brief(&o)), "value": i.cdh.coin_data.value.0.to_string(), "additional_data": hex::encode(&i.cdh.coin_data.additional_data), "coin_height": i.cdh.height.0, "reference_authorised": ref_authorised(&tx, idx, id, &i.cdh, &last_header)}) }).collect::<Vec<_>>(),
             "result": format!("{:?}", res.as_ref().map_err(|e| e.message.clone()))});
         match res {
@@ -405,6 +415,7 @@ pub fn run(p: &Params) -> Report {
                     let (idx, fam) = first_bad.unwrap();
                     let earlier_same = tx.inputs[..idx].iter().any(|id| by_id[id].cdh.coin_data.covhash == by_id[&tx.inputs[idx]].cdh.coin_data.covhash);
                     let cls = if earlier_same { "shares-covenant-hash-with-an-earlier-input" } else if tampered { "tampered-transaction" } else { "first-use-of-covenant" };
+                    let cls = if kind == TxKind::Normal { cls.to_string() } else { format!("{},spender-kind={}", cls, kind) };
                     rep.violate(&format!("C04|unauthorised-spend-accepted|apply_tx|{},{}", fam, cls), format!("input {} ({}) is not authorised by its covenant in its own environment, yet the transaction was accepted", idx, fam), wit);
                 } else if shared {
                     rep.count("accepted with inputs sharing a covenant hash (all authorised)");
